@@ -72,7 +72,9 @@ def _(v):
     v.prove("string_arg_lookup", v.eq(got[1], s))
     v.prove("nested_evaluated", v.eq(got[2], c))
     got = v.call(e.all_args, {"s": s}, evaluate=False)
-    v.prove("nested_unevaluated", got[2] is e.args[2])
+    # evaluate=False hands the nested expression back as an expression (not as its number); which object that is - the stored one, a copy - is
+    # not a clause of the property: it is an Expr and it evaluates to the nested expression's value
+    v.prove("nested_unevaluated", isinstance(got[2], Expr) and v.eq(v.call(got[2], {"s": s}), c), detail=repr(got[2]))
     # 6. parameters
     ps = v.call(e.all_params, {"temperature": T, "pressure": Constant([P])})
     v.prove("all_params", SP.conj([v.eq(ps[0], T), v.eq(ps[1], P)]))
@@ -105,7 +107,7 @@ def _(v):
     v.prove("neg", v.eq(ev(-Y), -y))
     # the property speaks of values: a double negation / a neutral operand must evaluate to the operand's value and must not introduce
     # names to look up (whether the very same object comes back is an implementation choice)
-    same_as_Y = lambda e: SP.conj([v.eq(ev(e), y), v.call(e.all_unique_keys) == {"y"}, v.call(e.all_parameter_keys) == set()])
+    same_as_Y = lambda e: SP.conj([v.eq(ev(e), y), set(v.call(e.all_unique_keys)) == {"y"}, set(v.call(e.all_parameter_keys)) == set()])
     v.prove("neg_neg", same_as_Y(-(-Y)))
     v.prove("add_number", v.eq(ev(Y + 3), y + 3))
     v.prove("radd_number", v.eq(ev(3 + Y), 3 + y))
@@ -154,9 +156,8 @@ def _(v):
 # ---------------------------------------------------------------------------- polynomials
 @harness("C16", "create_Poly.any_degree", functions=[EX + ":create_Poly", EX + ":create_Poly.<locals>._poly"], samples=30)
 def _(v):
-    """_poly for any number of coefficients: res = sum_j c_j * x0**j (loop invariant)"""
+    """create_Poly(name)(coeffs)({name: x}) = sum_j c_j * x**j for any number of coefficients (loop invariant of the accumulation)"""
     from chempy.util._expr import create_Poly
-    import chempy.util._expr as E
     coeffs = v.seq("coeffs", "real", lo=-5, hi=5, maxlen=5, minlen=1)
     x = v.real("x", lo=-3, hi=3)
     P = create_Poly("x")
@@ -167,31 +168,51 @@ def _(v):
         xs = SymSeq(n, lambda i: x, "xs")
         powx = lambda j: SP.sprod_prefix(xs, j)
         terms = SymSeq(n, lambda j: coeffs.at(j) * powx(j), "terms")
+        # The invariant speaks of two ROLES, not of two names (the property does not say what the accumulation calls its variables): of the
+        # variables the loop carries, the ACCUMULATOR is the one that is None before the first iteration, the RUNNING POWER the one that is the
+        # number 1 there. Who plays which role is read off the state in which the loop is entered (i == 0, before the engine forgets the
+        # values) and kept for the two later evaluations (assumed for an arbitrary i, shown again after one more iteration).
+        is_one = lambda a: isinstance(a, (int, float)) and not isinstance(a, bool) and a == 1
+        roles = {}
+
+        def roles_at_entry(values):
+            """(accumulator, running power) among {name: value before the loop}; None when the loop is not of this shape"""
+            acc = [k for k, a in values.items() if a is None]
+            pw = [k for k, a in values.items() if is_one(a)]
+            return (acc[0], pw[0]) if len(values) == 2 and len(acc) == 1 and len(pw) == 1 else None
 
         def inv(env, i, seq):
-            res = env["res"]
-            cs = [SP.iff(isnone(res), i == 0), env["cur"] == powx(i)]
+            if isinstance(i, int) and i == 0:
+                found = roles_at_entry({k: env[k] for k in env["@carried"]})
+                if found is None:
+                    raise LookupError("the loop does not carry exactly an accumulator starting as None and a running power starting as 1: %r" % (env["@carried"],))
+                roles["acc"], roles["power"] = found
+            res, cur = env[roles["acc"]], env[roles["power"]]
+            cs = [SP.iff(isnone(res), i == 0), cur == powx(i)]
             if res is not None:
                 cs.append(SP.implies(i > 0, optval(res) == SP.ssum_prefix(terms, i)))
             return SP.conj(cs)
-        v.invariant("chempy.util._expr:create_Poly.<locals>._poly", 0, inv, shapes={"res": opt_shape})
-        body = [f for f in [P.__call__]][0]
-        # evaluate the callback directly (the Expr plumbing is covered by Expr.arg)
-        import types
-        cb = _closure_of(P)
-        r = v.call(cb, coeffs, x)
+
+        def shape_by_role(name, old):
+            # what was None before the loop (the accumulator) is 'None or a number' at an arbitrary iteration; everything else: a fresh value of its kind
+            return opt_shape(name, old) if old is None else None
+
+        def is_the_accumulation(for_node, frame, seq):
+            # the same loop wherever it lives (the nested function renamed, the loop moved into a helper or behind another loop): recognised by the roles
+            try:
+                return roles_at_entry({k: frame.lookup(k) for k in v.interp.carried_names(for_node, frame)}) is not None
+            except Exception:
+                return False
+        v.invariant("chempy.util._expr:create_Poly.<locals>._poly", 0, inv, shapes=shape_by_role, label="create_Poly.<locals>._poly", where=is_the_accumulation)
+        # evaluated the way the property states it, through the class create_Poly returns (how from_callback hands the callback to the generated
+        # __call__ - closure cell, class attribute ... - is not looked at)
+        e = v.call(P, coeffs)
+        r = v.call(e, {"x": x})
         v.prove("post", r == SP.ssum(terms))
     else:
         e = P(list(coeffs))
         r = v.call(e, {"x": x})
         v.prove("post", v.eq(r, sum(c * x ** j for j, c in enumerate(coeffs)), rel=1e-9, abs_=1e-9))
-
-
-def _closure_of(Wrapper):
-    """the callback captured by Expr.from_callback's `body`"""
-    body = Wrapper.__call__
-    cells = dict(zip(body.__code__.co_freevars, body.__closure__))
-    return cells["callback"].cell_contents
 
 
 def _poly_shape(deg, reciprocal, shift):
@@ -222,15 +243,28 @@ for _d in (0, 1, 2, 3):
 
 @harness("C16", "rates.named_polys", functions=["chempy.kinetics._rates:<module>"], kind="data")
 def _(v):
-    from chempy.kinetics import _rates as R
-    v.prove("TPoly", abs(R.TPoly([1, 2, 3])({"temperature": 2.0}) - (1 + 4 + 12)) < 1e-12)
-    v.prove("RTPoly", abs(R.RTPoly([1, 2, 4])({"temperature": 2.0}) - (1 + 1 + 1)) < 1e-12)
-    v.prove("Log10TPoly", abs(R.Log10TPoly([1, 2])({"log10_temperature": 3.0}) - 7) < 1e-12)
-    v.prove("ShiftedTPoly", abs(R.ShiftedTPoly([1.0, 1, 2, 3])({"temperature": 3.0}) - (1 + 4 + 12)) < 1e-12)
-    v.prove("ShiftedLog10TPoly", abs(R.ShiftedLog10TPoly([1.0, 1, 2])({"log10_temperature": 3.0}) - 5) < 1e-12)
-    v.prove("ShiftedRTPoly", abs(R.ShiftedRTPoly([1.0, 1, 2, 4])({"temperature": 3.0}) - 3) < 1e-12)
-    pw = R.TPiecewise([0, 10.0, 100, 20.0, 200])
-    v.prove("TPiecewise", pw({"temperature": 50}) == 10.0 and pw({"temperature": 150}) == 20.0)
+    def holds(name, cond):
+        # an exception of the code under test (also: the class is not there) is a failed obligation, not a checker error
+        try:
+            v.prove(name, bool(cond()))
+        except Exception as ex:
+            v.prove(name, False, detail=repr(ex)[:200])
+    try:
+        from chempy.kinetics import _rates as R
+    except Exception as ex:
+        v.prove("set_up", False, detail=repr(ex)[:200])
+        return
+    holds("TPoly", lambda: abs(R.TPoly([1, 2, 3])({"temperature": 2.0}) - (1 + 4 + 12)) < 1e-12)
+    holds("RTPoly", lambda: abs(R.RTPoly([1, 2, 4])({"temperature": 2.0}) - (1 + 1 + 1)) < 1e-12)
+    holds("Log10TPoly", lambda: abs(R.Log10TPoly([1, 2])({"log10_temperature": 3.0}) - 7) < 1e-12)
+    holds("ShiftedTPoly", lambda: abs(R.ShiftedTPoly([1.0, 1, 2, 3])({"temperature": 3.0}) - (1 + 4 + 12)) < 1e-12)
+    holds("ShiftedLog10TPoly", lambda: abs(R.ShiftedLog10TPoly([1.0, 1, 2])({"log10_temperature": 3.0}) - 5) < 1e-12)
+    holds("ShiftedRTPoly", lambda: abs(R.ShiftedRTPoly([1.0, 1, 2, 4])({"temperature": 3.0}) - 3) < 1e-12)
+
+    def piecewise():
+        pw = R.TPiecewise([0, 10.0, 100, 20.0, 200])
+        return pw({"temperature": 50}) == 10.0 and pw({"temperature": 150}) == 20.0
+    holds("TPiecewise", piecewise)
 
 
 @harness("C16", "Log10.Exp.backends", functions=[EX + ":Log10.__call__", EX + ":UnaryFunction.__call__"], kind="data")
@@ -391,8 +425,11 @@ def _radiolytic(n):
             var["doserate" + ("" if nm == "" else "_" + nm)] = d
         r = v.call(cls(gs), var)
         v.prove("rate", v.eq(r, rho * sum(d * g for d, g in zip(ds, gs))))
-        v.prove("keys", cls.parameter_keys == ("density",) + tuple("doserate" + ("" if nm == "" else "_" + nm) for nm in names))
-        v.prove("yield_names_in_the_given_order", cls.argument_names == tuple("radiolytic_yield" + ("" if nm == "" else "_" + nm) for nm in names))
+        # which variables the expression asks for: the density and one dose rate per field - as a collection (tuple, list ...; the order in which
+        # __call__ fetches them is its own business, 'rate' above decides whether each yield met its own dose rate)
+        v.prove("keys", sorted(cls.parameter_keys) == sorted(["density"] + ["doserate" + ("" if nm == "" else "_" + nm) for nm in names]))
+        # the yields ARE positional: the i-th argument is the yield of the i-th field (compared item by item, tuple or list)
+        v.prove("yield_names_in_the_given_order", list(cls.argument_names) == ["radiolytic_yield" + ("" if nm == "" else "_" + nm) for nm in names])
     return _
 
 
@@ -434,21 +471,47 @@ def _(v):
 
 @harness("C16", "gas_constant.kB_over_h", functions=["chempy.kinetics.arrhenius:_get_R", "chempy.kinetics.eyring:_get_kB_over_h"], kind="data")
 def _(v):
-    from chempy.kinetics.arrhenius import _get_R
-    from chempy.kinetics.eyring import _get_kB_over_h
-    from chempy.units import default_constants as dc, default_units as u, to_unitless
-
+    """the two constants of the defining formulas, R and kB/h, as the Arrhenius / Eyring equations use them (no constants object, a constants
+    object, units only). They are taken from the modules' private helpers where the modules have helpers of these names (a finer aid), and are
+    otherwise read off the public equations: arrhenius_equation(1, Ea, T) = exp(-Ea/(R*T)), so R = Ea/(T * -ln k) (Ea chosen so that the
+    exponent is about -1: R to a few 1e-16); eyring_equation(0, 0, T) = (kB/h)*T, so kB/h = k/T"""
     def holds(name, cond):
         # an exception of the code under test is a failed obligation, not a checker error
         try:
             v.prove(name, bool(cond()))
         except Exception as ex:
             v.prove(name, False, detail=repr(ex)[:200])
-    holds("R_is_CODATA", lambda: abs(_get_R() / 8.314462618 - 1) < 1e-5)
-    holds("kB_over_h_is_CODATA", lambda: abs(_get_kB_over_h() / 2.083661912e10 - 1) < 1e-5)
-    holds("R_constants_path", lambda: abs(to_unitless(_get_R(dc, u), u.J / u.K / u.mol) / 8.314462618 - 1) < 1e-5)
-    holds("kB_over_h_constants_path", lambda: abs(to_unitless(_get_kB_over_h(dc, u), 1 / u.K / u.s) / 2.083661912e10 - 1) < 1e-5)
-    holds("R_units_path", lambda: abs(to_unitless(_get_R(None, u), u.J / u.K / u.mol) - 8.314472) < 1e-12)
+    try:
+        import chempy.kinetics.arrhenius as AR
+        import chempy.kinetics.eyring as EY
+        from chempy.units import default_constants as dc, default_units as u, to_unitless, Backend
+    except Exception as ex:
+        v.prove("set_up", False, detail=repr(ex)[:200])
+        return
+    Ea, T = 2494.0, 300.0
+
+    def R_of(constants=None, units=None):
+        helper = getattr(AR, "_get_R", None)
+        if helper is not None:
+            return helper(constants, units)
+        if constants is None and units is None:
+            return Ea / (T * -math.log(float(AR.arrhenius_equation(1.0, Ea, T))))
+        k = AR.arrhenius_equation(1.0, Ea * u.J / u.mol, T * u.K, constants, units, backend=Backend())     # the unit-aware backend (cf. F-C16c)
+        return Ea / (T * -math.log(float(to_unitless(k, 1)))) * u.J / u.K / u.mol
+
+    def kB_over_h_of(constants=None, units=None):
+        helper = getattr(EY, "_get_kB_over_h", None)
+        if helper is not None:
+            return helper(constants, units)
+        if constants is None and units is None:
+            return float(EY.eyring_equation(0.0, 0.0, T)) / T
+        k = EY.eyring_equation(0.0 * u.J / u.mol, 0.0 * u.J / u.K / u.mol, T * u.K, constants, units, backend=Backend())
+        return k / (T * u.K)
+    holds("R_is_CODATA", lambda: abs(R_of() / 8.314462618 - 1) < 1e-5)
+    holds("kB_over_h_is_CODATA", lambda: abs(kB_over_h_of() / 2.083661912e10 - 1) < 1e-5)
+    holds("R_constants_path", lambda: abs(to_unitless(R_of(dc, u), u.J / u.K / u.mol) / 8.314462618 - 1) < 1e-5)
+    holds("kB_over_h_constants_path", lambda: abs(to_unitless(kB_over_h_of(dc, u), 1 / u.K / u.s) / 2.083661912e10 - 1) < 1e-5)
+    holds("R_units_path", lambda: abs(to_unitless(R_of(None, u), u.J / u.K / u.mol) - 8.314472) < 1e-12)
 
 
 @harness("C16", "fits", functions=["chempy.kinetics.arrhenius:fit_arrhenius_equation", "chempy.kinetics.arrhenius:_fit", "chempy.kinetics.arrhenius:_fit_linearized",
@@ -588,9 +651,16 @@ def _as_rate_expr(order):
         rxn = Reaction(reac, {"P": 1}, EyringParam(dH, dS), checks=())
         ratex = v.call(EyringParam(dH, dS).as_RateExpr, None, None, None, be)
         # the default reference concentration is 1 molar (a unit-carrying one): state the claim on magnitudes
-        ey = ratex.args[0]
-        ey.args = list(ey.args[:2]) + [conc0]
-        r = v.call(ratex, var, backend=be, reaction=rxn)
+        var_e = var
+        try:
+            # as built today: mass action of an Eyring expression whose third argument (left to its default) is set to the plain number here
+            ey = ratex.args[0]
+            ey.args = list(ey.args[:2]) + [conc0]
+        except (AttributeError, IndexError, TypeError):
+            # built otherwise: the same through the public surface, the reference concentration supplied as a named override
+            ratex = v.call(EyringParam(dH, dS).as_RateExpr, ("pre_u", "dHR_u", "cref_u"), None, None, be)
+            var_e = dict(var, cref_u=conc0)
+        r = v.call(ratex, var_e, backend=be, reaction=rxn)
         kT = v.call(EyringParam(dH, dS), T, backend=be)
         v.prove_identity("eyring_rate", r, kT * cp)
     return _
@@ -629,7 +699,7 @@ def _(v):
     be = v.backend()
     ratex = v.call(ArrheniusParam(A, Ea).as_RateExpr, ("A_fwd",))
     rxn = Reaction({"A": 1}, {"P": 1}, None, checks=())
-    v.prove("key_reported", v.call(ratex.all_unique_keys) == {"A_fwd"})
+    v.prove("key_reported", set(v.call(ratex.all_unique_keys)) == {"A_fwd"})
     r0 = v.call(ratex, {"A": cA, "temperature": T}, backend=be, reaction=rxn)
     v.prove_identity("without_override", r0, A * be.exp(-Ea / (R_DEFAULT * T)) * cA)
     r1 = v.call(ratex, {"A": cA, "temperature": T, "A_fwd": A2}, backend=be, reaction=rxn)
@@ -913,7 +983,7 @@ def _(v):
     # the names of the operands are the names of the combination (what a caller is told it may override)
     a, b, c, d = mk_terms()
     total = v.call(v.call(a.__add__, b).__add__, c)
-    v.prove("names_of_the_operands_are_reported", v.call(total.all_unique_keys) == {"k_a", "k_b", "A_u"})
+    v.prove("names_of_the_operands_are_reported", set(v.call(total.all_unique_keys)) == {"k_a", "k_b", "A_u"})
     # the same through the reaction that carries the sum as its rate expression: d[P]/dt = rate, d[A]/dt = -2 rate
     rx = Reaction({"A": 2, "B": 1}, {"P": 1}, total, checks=())
     for sc, extra in scenarios:
